@@ -85,6 +85,11 @@ def mappingOp : Handler := fun args =>
       | .ok m => Json.mkObj [("ok", strs (mappingValues m)),
                              ("mwe", strs (sortStrs ((toMWE m).map fun kv => match kv.2 with | none => kv.1 | some x => kv.1 ++ "=" ++ x)))]
 
+/-- the two sequence mergers at their real paths: `services.*.labels` (mergeToSequence), `services.*.extra_hosts` -/
+def mergeSeqOp : Handler := fun args =>
+  withVal args "a" fun a => withVal args "b" fun b => withVal args "c" fun c => withVal args "d" fun d =>
+    Json.mkObj [("labels", Val.toJson (mergeToSequence a b)), ("extra_hosts", Val.toJson (mergeExtraHosts c d))]
+
 def mergeOp : Handler := fun args =>
   withVal args "base" fun b =>
     withVal args "over" fun o =>
@@ -123,7 +128,7 @@ def newGraphOp : Handler := fun args =>
 
 def handlers : List (String × Handler) := [
   ("c02.pmatch", pmatchOp), ("c02.table", tableOp), ("c02.ruleAt", ruleAtOp), ("c02.intoSeq", intoSeqOp),
-  ("c02.ssh", sshOp), ("c02.hosts", hostsOp), ("c02.mapping", mappingOp), ("c02.merge", mergeOp),
+  ("c02.ssh", sshOp), ("c02.hosts", hostsOp), ("c02.mapping", mappingOp), ("c02.merge", mergeOp), ("c02.mergeSeq", mergeSeqOp),
   ("c02.newGraph", newGraphOp)]
 
 end CV.Ops.C02
